@@ -19,7 +19,8 @@ EncVecs ==
      [op |-> "EncDec", fn |-> "EncryptInnerLeaseSet2", in |-> w, keyform |-> kf, positions |-> Positions(Len(w)), masks |-> << 1, 85 >>,
       cuts |-> << 61, 32 + 12 + 16, Len(w) \div 2, Len(w) + 59 >>, stream |-> kf + Len(w)])
 \* instants (seconds < 2^31): either side of several UTC midnights, noon, year/month/leap boundaries
-Midnights == << 1700006400, 1709164800, 1709251200, 1735689600, 951782400, 0 + 86400, 2145916800 >>
+\* (... and before 1970: negative second counts, where truncating division and flooring division part ways)
+Midnights == << 1700006400, 1709164800, 1709251200, 1735689600, 951782400, 0 + 86400, 2145916800, 0, -86400, -14256000, -2145916800 >>
 Instants == Concat(SeqMap(LAMBDA m : << m - 1, m, m + 1, m + 43200, m + 86399 >>, Midnights))
 Zones == << 0, -43200, -18000, 3600, 19800, 50400 >>
 Inst(sec, tz) == [sec |-> sec, tzsec |-> tz, day |-> DayString(sec), otherday |-> DayString(sec + 86400)]
